@@ -115,6 +115,12 @@ func HandleRequest(data []byte, req Requester) error {
 	r := &Request{}
 	err := json.Unmarshal(data, r)
 	if err != nil {
+		// A request with a valid ID, but with other fields of wrong type,
+		// still gets a response.
+		if r.ID != nil {
+			req.Reply(r.ErrorResponse(reserr.ErrInvalidRequest))
+			return nil
+		}
 		return err
 	}
 
